@@ -41,6 +41,103 @@ pub struct CoCase {
     /// original goes away)
     #[serde(default)]
     pub drop_services: bool,
+    /// instead of a simulated history: clones of one service are hammered from real OS threads
+    /// with calls that are dropped again at once (see crate::stress)
+    #[serde(default)]
+    pub stress: Option<CoStress>,
+}
+
+#[derive(Clone, Debug, Serialize, Deserialize)]
+pub struct CoStress {
+    pub threads: usize,
+    pub iters: u32,
+    pub nkeys: u32,
+}
+
+fn stress_strategy(tier: Tier) -> BoxedStrategy<CoCase> {
+    let iters = match tier {
+        Tier::Quick => 5_000u32,
+        Tier::Thorough => 40_000,
+    };
+    (2usize..=8, 1u32..=3)
+        .prop_map(move |(threads, nkeys)| CoCase {
+            callers: vec![],
+            order: vec![],
+            burst: None,
+            drop_services: false,
+            stress: Some(CoStress { threads, iters, nkeys }),
+        })
+        .boxed()
+}
+
+/// Real-thread stress: every thread calls (keys in rotation), polls the future once and drops it:
+/// leaders and waiters come and go all the time, under contention for the in-flight map. The
+/// inner call never completes, so a request only ever ends by being dropped. Oracle, once every
+/// thread has finished and dropped everything: each key is free again, i.e. a new request for it
+/// starts a fresh inner call.
+pub fn run_coalesce_stress(st: &CoStress) -> Report {
+    use std::future::Future;
+    use std::sync::atomic::{AtomicU64, Ordering};
+    use std::sync::Arc;
+    let mut r = Report::default();
+    let entered: Arc<Vec<AtomicU64>> = Arc::new((0..st.nkeys).map(|_| AtomicU64::new(0)).collect());
+    let e2 = entered.clone();
+    let inner = tower::service_fn(move |req: Req| {
+        e2[req.key as usize].fetch_add(1, Ordering::SeqCst);
+        async move {
+            futures::future::pending::<()>().await;
+            Ok::<Resp, SErr>(Resp { serial: 0, req })
+        }
+    });
+    let layer = CoalesceLayer::new(|r: &Req| crate::props::cache::CKey(r.key));
+    let base = layer.layer(inner);
+    let (iters, nkeys) = (st.iters, st.nkeys);
+    let proto = std::sync::Mutex::new(base.clone());
+    let panicked = crate::stress::run_threads(st.threads, move |t| {
+        let mut svc = proto.lock().unwrap().clone();
+        let waker = futures::task::noop_waker();
+        let mut cx = std::task::Context::from_waker(&waker);
+        for i in 0..iters {
+            let _ = svc.poll_ready(&mut cx);
+            let mut f = Box::pin(svc.call(Req {
+                id: i,
+                key: (t as u32 + i) % nkeys,
+                tag: 0,
+            }));
+            let _ = f.as_mut().poll(&mut cx);
+            drop(f);
+        }
+    });
+    let waker = futures::task::noop_waker();
+    let mut cx = std::task::Context::from_waker(&waker);
+    let mut svc = base.clone();
+    for k in 0..st.nkeys {
+        let before = entered[k as usize].load(Ordering::SeqCst);
+        let _ = svc.poll_ready(&mut cx);
+        let mut f = Box::pin(svc.call(Req {
+            id: u32::MAX,
+            key: k,
+            tag: 0,
+        }));
+        let _ = f.as_mut().poll(&mut cx);
+        let after = entered[k as usize].load(Ordering::SeqCst);
+        if after != before + 1 && r.violation.is_none() {
+            r.fail(format!(
+                "{} threads x {} calls (each dropped after one poll) on clones of one service: afterwards nothing is in flight, yet a new request for key {k} started {} inner calls; the key is stuck to a leader that no longer exists",
+                st.threads,
+                st.iters,
+                after - before
+            ));
+        }
+        drop(f);
+    }
+    if let Some(p) = panicked {
+        r.fail(format!("a coalesce call panicked on a stress thread: {p}"));
+    }
+    r.nontrivial = true;
+    r.class("real_thread_stress");
+    r.trace = json!({"inner_calls_per_key": entered.iter().map(|e| e.load(Ordering::SeqCst)).collect::<Vec<_>>(), "stress": st});
+    r
 }
 
 #[derive(Clone, Debug, Serialize, Deserialize)]
@@ -89,6 +186,7 @@ fn case_strategy(tier: Tier) -> BoxedStrategy<CoCase> {
             order,
             burst: None,
             drop_services,
+            stress: None,
         });
     let burst = (
         prop::collection::vec(prop_oneof![3 => Just(0u32), 1 => 0u32..2], 2..=4),
@@ -103,6 +201,7 @@ fn case_strategy(tier: Tier) -> BoxedStrategy<CoCase> {
             order: vec![],
             burst: Some(Burst { keys, ok, schedule }),
             drop_services: false,
+            stress: None,
         });
     prop_oneof![12 => history, 1 => burst].boxed()
 }
@@ -593,7 +692,7 @@ impl Property for C11 {
         "C11"
     }
     fn strategy(&self, tier: Tier) -> BoxedStrategy<CoCase> {
-        case_strategy(tier)
+        prop_oneof![1000 => case_strategy(tier), 1 => stress_strategy(tier)].boxed()
     }
     fn budget(&self, tier: Tier) -> (u32, usize) {
         match tier {
@@ -602,6 +701,9 @@ impl Property for C11 {
         }
     }
     fn run(&self, case: &CoCase) -> Report {
+        if let Some(st) = &case.stress {
+            return run_coalesce_stress(st);
+        }
         let v = run_coalesce(case);
         let mut r = Report::default();
         if let Some(m) = v.violations.first() {
@@ -614,7 +716,7 @@ impl Property for C11 {
         r
     }
     fn rule(&self) -> String {
-        "proptest-generated histories: 2-12/24 requests over 3 keys on 3 clones, arrival instants, leader scripts (latency 0-60 ms or never; ok/error/panic), cancellation of leaders and waiters (before first poll, later), poll-order choices; virtual clock. Oracle over the event log: per key at most one inner call in flight; a request arriving while its key is in flight starts no inner call and resolves in the instant that call ends with exactly its serial (ok or error), or with LeaderCancelled if the leader was dropped or panicked; a request arriving with the key free starts a call in its arrival instant (also right after a cancelled leader); leaders get their own result; at the horizon only requests depending on a never-ending live leader are pending. Non-trivial: at least two waiters of a leader that is cancelled or panics, or a waiter cancellation; distinct by hash of the case".into()
+        "proptest-generated histories: 2-12/24 requests over 3 keys on 3 clones, arrival instants, leader scripts (latency 0-60 ms or never; ok/error/panic), cancellation of leaders and waiters (before first poll, later), poll-order choices; virtual clock; about one case in 1000 is instead a real-thread stress (2-8 OS threads x 5000/40000 calls on 1-3 keys, each dropped after one poll; afterwards every key must be free: a new request starts a fresh inner call). Oracle over the event log: per key at most one inner call in flight; a request arriving while its key is in flight starts no inner call and resolves in the instant that call ends with exactly its serial (ok or error), or with LeaderCancelled if the leader was dropped or panicked; a request arriving with the key free starts a call in its arrival instant (also right after a cancelled leader); leaders get their own result; at the horizon only requests depending on a never-ending live leader are pending. Non-trivial: at least two waiters of a leader that is cancelled or panics, or a waiter cancellation; distinct by hash of the case".into()
     }
     fn assumptions(&self) -> Vec<String> {
         vec![
